@@ -708,6 +708,9 @@ class ExecutorBase:
         raise Unsupported("compare op")
 
     def contains(self, container: SV, item: SV, node=None):
+        if container.meta and container.meta[0] == "oldview":
+            view = container
+            return self.in_view(view, lambda: self.contains(SV(view.term, view.ty), item, node))
         st = self.st
         cn = container.ty.name if container.ty else None
         if container.meta and container.meta[0] == "tuple":
